@@ -159,9 +159,12 @@ Definition ohost_eqb (a b : ohost) : bool :=
   | _, _ => false
   end.
 
-Definition check_case (c : tcase) : bool :=
+(* everything except the throw-site position agrees *)
+Definition obs_agree (c : tcase) : bool :=
   let '(oe, oh) := model_obs (t_chain c) in
-  list_eqb oevent_eqb (t_events c) oe && ohost_eqb (t_host c) oh && t_pos_ok c.
+  list_eqb oevent_eqb (t_events c) oe && ohost_eqb (t_host c) oh.
+
+Definition check_case (c : tcase) : bool := obs_agree c && t_pos_ok c.
 
 Fixpoint mismatch_from (i : N) (cs : list tcase) : list N :=
   match cs with
@@ -170,4 +173,5 @@ Fixpoint mismatch_from (i : N) (cs : list tcase) : list N :=
   end.
 Definition mismatch_ids := mismatch_from 0%N.
 
-Definition expected (c : tcase) := model_obs (t_chain c).
+(* the model's observation, and whether the implementation's events and host result (not the position) agree with it *)
+Definition expected (c : tcase) := (model_obs (t_chain c), obs_agree c).
